@@ -1202,6 +1202,20 @@ func (c *Ctx) c07Batch(b BK) {
 				}
 				_ = counts // how many entries a batch operation reports to the metrics is C18's matter (R18.3), not observable here
 			}
+			// every call scans: a path that returns without having started the scan (a "somebody else is already at it" guard) leaves
+			// entries written since that other scan passed them untouched although this call completed
+			if s.op != "Len" && !p.Panic && !c.featurePath(p) {
+				scans := false
+				for _, ev := range p.Events {
+					if ev.Kind == pw.EvLoopBegin || ev.Kind == pw.EvLoopZero || syncMapOp(ev) == "Range" {
+						scans = true
+					}
+				}
+				if !scans {
+					r.Bad("R07.4", op, "batch-skipped", c.Pos(p.RetPos), s.op+" returns on a path that never starts its scan over the entries", shortTrace(p))
+					bad = true
+				}
+			}
 			// no early termination of the scan: Range callbacks return true, loops are not left by break/return
 			for _, ev := range p.Events {
 				if ev.Kind == pw.EvLoopEnd && ev.Note == "break" {
